@@ -70,7 +70,10 @@ def spec_parse(data):
         for _ in range(c):
             k, i = read_bytes(data, i)
             v, i = read_bytes(data, i)
-            k = k.decode("utf-8")
+            try:
+                k = k.decode("utf-8")
+            except UnicodeDecodeError:
+                raise ParseError("metadata key is not UTF-8")
             if k not in meta:
                 order.append(k)
             meta[k] = v
